@@ -65,6 +65,19 @@ def isPo2 (s : Rat) : Bool := decide (0 < s) && decide (pow2 (ceilLog2Rat s) = s
 
 def ubits (bits : Int) (keepNeg : Bool) : Int := bits - (if keepNeg then 1 else 0)
 
+/-- The integer codes of the format an auto_po2 `quantized_bits(bits, integer, keep_negative=…)`
+    DECLARES (a string alpha forces `symmetric`): signed `[-(2^(bits-1)-1), 2^(bits-1)-1]` — one
+    bit is the sign —, unsigned (`keep_negative=False`) `[0, 2^bits - 1]` — all bits are magnitude. -/
+def codeLo (bits : Int) (keepNeg : Bool) : Rat := if keepNeg then -(pow2 (bits - 1) - 1) else 0
+def codeHi (bits : Int) (keepNeg : Bool) : Rat := if keepNeg then pow2 (bits - 1) - 1 else pow2 bits - 1
+
+/-- "an integer inside the declared bit range" (the clause oracle `judge_autopo2` runs this) -/
+def inCodeRange (bits : Int) (keepNeg : Bool) (h : Rat) : Bool :=
+  decide (h.den = 1) && decide (codeLo bits keepNeg ≤ h) && decide (h ≤ codeHi bits keepNeg)
+
+/-- the value of one code unit of that format: `2^integer / 2^(bits - keep_negative)` -/
+def stepOf (bits integer : Int) (keepNeg : Bool) : Rat := pow2 (integer - ubits bits keepNeg)
+
 /-- result of one iteration of `for quantizer, weight in zip(qs, ws)` -/
 structure WOut where
   stored : Tensor                 -- appended to `weights`   (software-inference format)
